@@ -19,7 +19,7 @@
  * any header field or the header crc / feature words / key block / device
  * superblock / sb_crc  => refused, and the device is never written.
  */
-#define VF_GETMEM_MIN 1024
+#define VF_ALLOC_CONST 48
 #include "undo_pre.h"
 #include "lib/ext2fs/undo_io.c"
 #include "lib/ext2fs/io_manager.c"
@@ -227,7 +227,9 @@ int main(void)
 	vf_uf_writes = 0;
 	vf_uf_lowest = ~0ULL;
 
+	vf_getmem_min = SUPERBLOCK_SIZE;
 	rc = try_reopen_undo_file(5, &vf_data);
+	vf_getmem_min = 0;
 
 	PROP(vf_real_ops == 0, "re-opening never modifies the device");
 #if DAMAGE == 0
